@@ -30,13 +30,17 @@ GraphOf(grp) == MkG(ToSet(grp.n),
 CardOf(G) == [v \in G.n |-> IF v \in Ternary THEN 3 ELSE 2]
 LatOf(G)  == IF Layout = "clique" THEN CliqueLatents(G) ELSE EdgeLatents(G)
 
-\* population 0 is the target; population k >= 1 is grp.pops[k] = [tag |-> <<per-node tags>>]
+\* population 0 is the target; population k >= 1 is grp.pops[k], either [tag |-> <<per-node tags>>] or a
+\* source domain [z |-> experiments, w |-> surrogate outcomes] whose mechanisms are fresh exactly at the
+\* nodes the derived selection diagram marks (TransportNodes)
+PopTag(grp, G, p) ==
+  IF "tag" \in DOMAIN grp.pops[p] THEN [v \in G.n |-> grp.pops[p].tag[v]]
+  ELSE LET tn == TransportNodes(G, ToSet(grp.pops[p].z), ToSet(grp.pops[p].w)) IN
+       [v \in G.n |-> IF v \in tn THEN p ELSE 0]
 ModelsOf(grp, G, seed) ==
   LET np == IF "pops" \in DOMAIN grp THEN Len(grp.pops) ELSE 0 IN
   [p \in 0..np |->
-     Model(G, LatOf(G), CardOf(G),
-           IF p = 0 THEN NoTag(G) ELSE [v \in G.n |-> grp.pops[p].tag[v]],
-           seed)]
+     Model(G, LatOf(G), CardOf(G), IF p = 0 THEN NoTag(G) ELSE PopTag(grp, G, p), seed)]
 
 OutTerm(r) == IF r.out.k = "expr" /\ "e" \in DOMAIN r.out THEN {r.out.e} ELSE {}
 RecTerms(r, grp_n) ==
@@ -46,6 +50,7 @@ RecTerms(r, grp_n) ==
     [] r.k = "calc"  -> OutTerm(r) \cup {Math(r.m), DevMath(r.m)}
     [] r.k = "canon" -> OutTerm(r) \cup {r.pre}
     [] r.k = "pp"    -> OutTerm(r) \cup {r.a}
+    [] r.k = "tr"  -> OutTerm(r) \cup {TruthDo(ToSet(r.x), ToSet(r.y), 0)}
     [] r.k = "q"   -> OutTerm(r) \cup {TruthDo(ToSet(grp_n) \ ToSet(r.s), ToSet(r.s), 0)}
     [] OTHER -> {}
 
@@ -156,6 +161,22 @@ JudgeSame(r) ==
   IF r.a = r.b /\ r.eq /\ r.str THEN Verdict(r.id, TRUE, "ok", NoCmp)
   ELSE Verdict(r.id, FALSE, "not-identical", NoCmp)
 
+\* transport (C05 / C06): the estimand over the target's observational and the domains' experimental
+\* distributions must denote P*(y | do x); without any source domain it is returned exactly when ID answers
+JudgeTr(grp, G, Ws, r) ==
+  LET X == ToSet(r.x)  Y == ToSet(r.y)
+      np == IF "pops" \in DOMAIN grp THEN Len(grp.pops) ELSE 0
+      zs == [p \in 1..np |-> ToSet(grp.pops[p].z)]
+  IN CASE r.out.k = "exc" -> Verdict(r.id, FALSE, "other-failure", NoCmp)
+       [] r.out.k = "mutated" -> Verdict(r.id, FALSE, "side-effect", NoCmp)
+       [] r.out.k = "unident" -> IF np = 0 /\ TianOK(G, X, Y) THEN Verdict(r.id, FALSE, "spurious-refusal", NoCmp)
+                                 ELSE Verdict(r.id, TRUE, "refused", NoCmp)
+       [] r.out.k = "expr" ->
+            IF "unser" \in DOMAIN r.out THEN Verdict(r.id, FALSE, "vocabulary", NoCmp)
+            ELSE IF ~TransportVocab(r.out.e, G.n, zs) THEN Verdict(r.id, FALSE, "vocabulary", NoCmp)
+            ELSE IF np = 0 /\ ~TianOK(G, X, Y) THEN Verdict(r.id, FALSE, "answered-unidentifiable", NoCmp)
+            ELSE SemClause(r.id, Ws, r.out.e, TruthDo(X, Y, 0))
+
 Judge(G, Ws, r) ==
   CASE r.k = "do"  -> JudgeDo(G, Ws, r)
     [] r.k = "calc"  -> JudgeCalc(Ws, r)
@@ -172,7 +193,7 @@ JudgeGroup(grp) ==
       sd  == SetToSeq(Seeds)
       dos == UNION {UNION {Dos(t) : t \in RecTerms(grp.recs[i], grp.n)} : i \in DOMAIN grp.recs}
       Ws  == TLCEval([k \in DOMAIN sd |-> Bundle(ModelsOf(grp, G, sd[k]), dos)])
-  IN [i \in DOMAIN grp.recs |-> Judge(G, Ws, grp.recs[i])]
+  IN [i \in DOMAIN grp.recs |-> IF grp.recs[i].k = "tr" THEN JudgeTr(grp, G, Ws, grp.recs[i]) ELSE Judge(G, Ws, grp.recs[i])]
 
 Init == gi = 0
 Next == /\ gi < Len(Trace)
